@@ -186,7 +186,11 @@ fn index(buf: &[u8], bounds: &mut Bounds) -> io::Result<()> {
     bounds.reference_bases_range = start..end;
     i = end;
 
-    for _ in 0..(allele_count - 1) {
+    let alternate_allele_count = allele_count
+        .checked_sub(1)
+        .ok_or_else(|| io::Error::new(io::ErrorKind::InvalidData, "invalid allele count"))?;
+
+    for _ in 0..alternate_allele_count {
         let (_, end) = consume_string(&mut buf, i)?;
         i = end;
     }
